@@ -131,6 +131,31 @@ def across(conf, seed, k):
     return p
 
 
+NARROW = [(amp, pa, ph) for amp in (10.5, 12.0) for pa in (0.0, 90.0) for ph in ((0.0, 0.0), (0.5, 0.0))]
+
+
+def narrow(conf, seed, k):
+    """a faint elongated source as narrow as a 3 pixel beam, along a pixel axis: its island is exactly three pixels
+    wide - the narrowest island that is still fitted with all its shape parameters free."""
+    p = continuous(dict(conf, beam="circ"), seed)
+    amp, pa, ph = NARROW[k % len(NARROW)]
+    b = 3.0 * p["scale"]
+    p.update(beam=(b, b, 0.0), a=2.5 * b, b=b, pa=pa, kind="extended", amp=amp * (-1 if k % 2 else 1), size=96,
+             phase="int-int" if ph == (0.0, 0.0) else "half-int")
+    p["x0"], p["y0"] = 48 + ph[0], 50 + ph[1]
+    p["crval"] = (p["crval"][0], 0.0)        # (no rotation of the pixel axes against North)
+    return p
+
+
+def failed_run(args, why):
+    """the finder call did not come back (killed, out of memory, out of time): a verdict, not a machinery failure"""
+    rid, conf, seed, workdir, use_cli = args
+    p = continuous(conf, seed)
+    return {"id": rid, "conf": conf, "seed": seed, "err": "run did not complete: " + why, "noise": bool(conf["noise"]),
+            "n_components": -1, "dpos_1e4px": 0, "peak_ppm": 0, "a_ppm": 0, "b_ppm": 0, "dpa_udeg": 0, "int_ppm": 0,
+            "ratio_1e3": 1000, "z_milli": [], "kind": p["kind"], "cli": bool(use_cli), "phase": p["phase"]}
+
+
 def observe(args):
     rid, conf, seed, workdir, use_cli = args
     common.quiet_logging()
@@ -139,6 +164,8 @@ def observe(args):
         p = coarse(conf, seed, int(rid.split("/")[1]))
     elif rid.startswith("across/"):
         p = across(conf, seed, int(rid.split("/")[1]))
+    elif rid.startswith("narrow/"):
+        p = narrow(conf, seed, int(rid.split("/")[1]))
     else:
         p = continuous(conf, seed)
     rec = {"id": rid, "conf": conf, "seed": seed, "err": "", "noise": bool(conf["noise"]), "n_components": -1,
@@ -162,10 +189,24 @@ def observe(args):
             else:
                 img = img + np.random.default_rng(p["noise_seed"]).normal(0, 1, shape)
                 rec["noise_kind"] = "white"
-        synth.write(path, img, h)
         kw = dict(cores=int(conf["cores"]), docov=bool(conf["docov"]), nonegative=False)
         if conf["bkgrms"] == "forced":
             kw.update(rms=1.0, bkg=0.0)
+        cube = conf["bkgrms"] == "internal" and seed % 2 == 1 and not use_cli
+        if cube:
+            # the image is plane 1 of a cube whose plane 0 is another channel (offset zero level, a third of the
+            # noise): everything - also the internal background / noise estimate - has to come from the plane asked for
+            from astropy.io import fits
+            decoy = np.random.default_rng(p["noise_seed"] + 1).normal(2.5, 0.3, shape)
+            hdu = fits.PrimaryHDU(np.stack([decoy, img]).astype(np.float32))
+            for k_, v_ in h.items():
+                if k_ not in ('SIMPLE', 'BITPIX', 'NAXIS', 'NAXIS1', 'NAXIS2', 'EXTEND'):
+                    hdu.header[k_] = v_
+            hdu.writeto(path, overwrite=True)
+            kw["cube_index"] = 1
+            rec["cube"] = True
+        else:
+            synth.write(path, img, h)
         rows = None
         with contextlib.redirect_stderr(io.StringIO()), contextlib.redirect_stdout(io.StringIO()):
             if use_cli:
@@ -296,12 +337,13 @@ def run(ctx):
     cc = [c for c in forced if c["beam"] == "circ" and not c["noise"]]
     for k in range(len(COARSE)):
         jobs.append(("coarse/%d" % k, cc[(k * 7) % len(cc)], ctx.seed * 1000003 + 900000 + k, ctx.workdir, False))
+    for k in range(len(NARROW)):
+        jobs.append(("narrow/%d" % k, cc[(k * 5 + 1) % len(cc)], ctx.seed * 1000003 + 970000 + k, ctx.workdir, False))
     for k in range(len(ACROSS)):
         jobs.append(("across/%d" % k, cc[(k * 11 + 3) % len(cc)], ctx.seed * 1000003 + 950000 + k, ctx.workdir, False))
     # (not multiprocessing.Pool: its workers are daemonic and BANE needs child processes)
-    from concurrent.futures import ProcessPoolExecutor
-    with ProcessPoolExecutor(max_workers=16) as pool:
-        recs = list(pool.map(observe, jobs, chunksize=1))
+    import AegeanTools.source_finder, AegeanTools.CLI.aegean, astropy.wcs      # noqa: imported once, inherited by the forked runs
+    recs = common.map_isolated(observe, jobs, workers=16, timeout=900, mem_gb=10, on_fail=failed_run)
     rejected = validate(ctx, recs, "recovery")
     ctx.count(evaluations=len(recs),
               nontrivial=len({common.json.dumps(r["conf"], sort_keys=True) + r["kind"] for r in recs}),
